@@ -1,24 +1,28 @@
 #!/bin/sh
-# usage: eval_mutant.sh <patch file> <label> <property id>...
+# usage: [LANE=n] eval_mutant.sh <patch file> <label> <property id>...
 # Runs the named quick checks against a scratch worktree of /repo with the patch applied, without
 # touching /repo or /verif's evidence: the simulator is built from a copy of /verif/sim whose
-# memvid-core dependency points at the worktree. Prints one line per check.
+# memvid-core dependency points at the worktree. Prints one line per check. Several lanes can run
+# side by side (separate worktree, build directory and CPU set per lane).
 PATCH=$1; LABEL=$2; shift 2
-WT=/tmp/mutrepo; SIM=/tmp/mutsim; VD=/tmp/mutsim-verif
+L=${LANE:-0}
+WT=/tmp/mutrepo$L; SIM=/tmp/mutsim$L; VD=/tmp/mutsim-verif$L; TG=/tmp/mutsim-target$L
 export CARGO_NET_OFFLINE=true
+export MEMSIM_JOBS=${MEMSIM_JOBS:-8} MEMSIM_PIN_BASE=$((L * 8)) MEMSIM_BACKSTOP_MULT=${MEMSIM_BACKSTOP_MULT:-15}
 [ -d $WT ] || git -C /repo worktree add --detach $WT HEAD >/dev/null 2>&1
 cd $WT && git checkout -q --detach $(git -C /repo rev-parse HEAD) && git checkout -q -- . || exit 2
 if [ "$PATCH" != "none" ]; then git apply --whitespace=nowarn "$PATCH" || { echo "$LABEL: PATCH DOES NOT APPLY"; exit 2; }; fi
 rm -rf $SIM; mkdir -p $SIM $VD/evidence $VD/replays
 S=${SIM_SRC:-/verif/sim}; cp -r $S/src $S/Cargo.toml $S/Cargo.lock $SIM/
 [ -d /verif/sim/.cargo ] && cp -r /verif/sim/.cargo $SIM/
-sed -i 's|path = "/repo"|path = "/tmp/mutrepo"|' $SIM/Cargo.toml
+sed -i "s|path = \"/repo\"|path = \"$WT\"|" $SIM/Cargo.toml
 cp /verif/KNOWN_FINDINGS.jsonl $VD/
-cd $SIM && cargo build --release --offline --target-dir /tmp/mutsim-target >/tmp/mutsim-build.log 2>&1 || { echo "$LABEL: BUILD FAILED"; tail -20 /tmp/mutsim-build.log; cd $WT; git checkout -q -- .; exit 2; }
+cd $SIM && cargo build --release --offline -j 8 --target-dir $TG >$VD/build.log 2>&1 || { echo "$LABEL: BUILD FAILED"; tail -20 $VD/build.log; cd $WT; git checkout -q -- .; exit 2; }
 cd $VD
 for P in "$@"; do
-  VERIF_DIR=$VD VERIF_SEED=${VERIF_SEED:-1} /tmp/mutsim-target/release/memsim check --property $P --tier ${TIER:-quick} > $VD/$LABEL-$P.log 2>&1
+  s=$(date +%s)
+  VERIF_DIR=$VD VERIF_SEED=${VERIF_SEED:-1} $TG/release/memsim check --property $P --tier ${TIER:-quick} > $VD/$LABEL-$P.log 2>&1
   rc=$?
-  echo "$LABEL $P exit=$rc $(grep -c '^VIOLATION' $VD/$LABEL-$P.log) violations: $(grep '^violation' $VD/$LABEL-$P.log | head -2 | cut -c1-300)"
+  echo "$LABEL $P exit=$rc secs=$(( $(date +%s) - s )) $(grep -c '^VIOLATION' $VD/$LABEL-$P.log) violations: $(grep '^violation' $VD/$LABEL-$P.log | grep -v 'KNOWN' | head -2 | cut -c1-300)"
 done
 cd $WT && git checkout -q -- .
